@@ -10,3 +10,7 @@ import VibeProof.Props.C03
 #print axioms VibeProof.C03.colItem_eq
 #print axioms VibeProof.C03.C03_probe_const
 #print axioms VibeProof.C03.C03_gate_const
+#print axioms VibeProof.C03.C03_simd_batches_sum
+#print axioms VibeProof.C03.C03_simd_batches_min
+#print axioms VibeProof.C03.C03_simd_batches_max
+#print axioms VibeProof.C03.C03_batch_const
